@@ -25,6 +25,10 @@ for d in sorted(glob.glob(os.path.join(out, "*"))):
         ev = subprocess.run([os.path.join(V, "tools/seedeval.sh"), os.path.join(d, "patch.diff"), prop, tier],
                             capture_output=True, text=True)
         lines = ev.stdout.strip().split("\n")
+        if any("PATCH DOES NOT APPLY" in l for l in lines):
+            result[tier] = {"detected": False, "not_evaluated": "the patch no longer applies to /repo HEAD (the code it changes was changed by a later fix)"}
+            print("   ", tier, "NOT EVALUATED: patch does not apply to the current /repo")
+            break
         viol = [l for l in lines if l.startswith("VIOLATION")]
         summ = [l for l in lines if " tier=" in l]
         result[tier] = {"detected": bool(viol), "violation_lines": viol[:3], "summary": summ[:1],
